@@ -325,3 +325,112 @@ Lemma inv_init c0 : Inv c0 c0 init_state.
 Proof.
   intros k H. unfold avail in H. simpl in H. rewrite andb_true_r in H. exact H.
 Qed.
+
+(* ---- soundness of the data-type flow check (last-data-carrying-node variant) --------------------------- *)
+Definition thonest (x : inode) : Prop :=
+  (pr_kind (n_proc (fst x)) = KOp \/ pr_kind (n_proc (fst x)) = KSource) ->
+  forall d c d' c', exec_node (fst x) (d, c) = Ok (d', c') -> ty_of d' = snd x.
+
+Fixpoint first_data_in (p : list inode) : option dtype :=
+  match p with
+  | [] => None
+  | (n, _) :: tl => if is_ctx n then first_data_in tl else Some (pr_in (n_proc n))
+  end.
+
+(* what the analysis knows about the current data: its type, unless no data node ran yet, in which
+   case the payload must suit the first data node (the validator cannot see the payload) *)
+Definition TInv (cur : option dtype) (rest : list inode) (d : data) : Prop :=
+  match cur with
+  | Some t => t = TAny \/ ty_of d = t
+  | None => match first_data_in rest with Some t => gate t d = true | None => True end
+  end.
+
+Lemma dtype_eqb_eq a b : dtype_eqb a b = true -> a = b.
+Proof. destruct a, b; simpl; congruence. Qed.
+
+Lemma gate_cases want d : gate want d = true -> want = TAny \/ ty_of d = want.
+Proof.
+  unfold gate. destruct want; intros H; auto; right; symmetry; apply dtype_eqb_eq; exact H.
+Qed.
+
+Lemma compat_gate t i d : compat t i = true -> (t = TAny \/ ty_of d = t) -> gate i d = true.
+Proof.
+  unfold compat, gate. intros Hc [->|<-].
+  - destruct i; simpl in *; try discriminate; reflexivity.
+  - destruct i; auto.
+Qed.
+
+Section TypeSound.
+Variable v : variant.
+
+Lemma inspect_node_types idx n o st r st' :
+  inspect_node v idx (n, o) st = (r, st') -> r_invalid r = false ->
+  r_in r = in_of n /\ r_out r = out_of (n, o).
+Proof.
+  intros H Hr. unfold inspect_node in H.
+  destruct (construct n) as [u|[s cls w]]; injection H as <- _; simpl in *; [auto|discriminate].
+Qed.
+
+Lemma exec_data_unchanged n d c d' c' :
+  (pr_kind (n_proc n) = KCtx \/ pr_kind (n_proc n) = KProbe \/ pr_kind (n_proc n) = KSink) ->
+  exec_node n (d, c) = Ok (d', c') -> d' = d.
+Proof.
+  intros [K|[K|K]] H.
+  - apply (ctxproc_frame n d c d' c' K H).
+  - destruct (exec_data_node n d c (d', c')) as (_ & ps & dd & pv & ops & c1 & R & P & W & E); auto.
+    { rewrite K. reflexivity. }
+    rewrite K in E. destruct (n_ckey n); injection E as -> _; reflexivity.
+  - apply (sink_passthrough n d c d' c' K H).
+Qed.
+
+Lemma exec_gate_passed n d c s' :
+  is_ctx n = false -> exec_node n (d, c) = Ok s' -> gate (pr_in (n_proc n)) d = true.
+Proof.
+  intros K H. unfold is_ctx in K.
+  destruct (exec_data_node n d c s') as (G & _); auto.
+  destruct (pr_kind (n_proc n)); try reflexivity. discriminate.
+Qed.
+
+Theorem types_sound : forall p idx st rs stf,
+  inspect_from v idx p st = (rs, stf) ->
+  forallb node_ok rs = true ->
+  Forall thonest p ->
+  forall cur, forallb negb (typeflow_last cur rs) = true ->
+  forall k i d c d' c' n o,
+  TInv cur p d ->
+  run_from i (firstn k (map fst p)) (d, c) = Done (d', c') ->
+  nth_error p k = Some (n, o) -> is_ctx n = false ->
+  gate (pr_in (n_proc n)) d' = true.
+Proof.
+  induction p as [|[n0 o0] tl IH]; intros idx st rs stf H Hok Hh cur Hflow k i d c d' c' n o HT Hrun Hnth Hdata.
+  - destruct k; discriminate.
+  - rewrite inspect_from_cons in H. destruct (inspect_node v idx (n0, o0) st) as [r st'] eqn:E.
+    destruct (inspect_from v (S idx) tl st') as [rs' stf'] eqn:E2. injection H as <- <-.
+    simpl in Hok. apply andb_true_iff in Hok as [Hr Hrs].
+    assert (Hinv : r_invalid r = false).
+    { unfold node_ok in Hr. apply andb_true_iff in Hr as [X _]. apply negb_true_iff in X. exact X. }
+    destruct (inspect_node_types idx n0 o0 st r st' E Hinv) as [Rin Rout].
+    simpl in Hflow. apply andb_true_iff in Hflow as [Hf0 Hfl]. apply negb_true_iff in Hf0.
+    inversion Hh as [|? ? Hh0 Hht]; subst.
+    destruct k as [|k].
+    + cbn [firstn map fst run_from nth_error] in Hrun, Hnth. inversion Hrun; subst d' c'. injection Hnth as -> ->.
+      rewrite Rin in Hf0. unfold in_of in Hf0. rewrite Hdata in Hf0.
+      destruct cur as [t|].
+      * apply negb_false_iff in Hf0. eapply compat_gate; eauto.
+      * simpl in HT. rewrite Hdata in HT. exact HT.
+    + cbn [firstn map fst run_from nth_error] in Hrun, Hnth.
+      destruct (exec_node n0 (d, c)) as [[d1 c1]|e] eqn:Ex; [|discriminate].
+      eapply (IH (S idx) st' rs' stf' E2 Hrs Hht _ Hfl k (S i) d1 c1 d' c' n o); eauto.
+      (* the invariant after node n0 *)
+      rewrite Rout. unfold out_of, is_ctx.
+      destruct (pr_kind (n_proc n0)) eqn:K.
+      * (* KSource *) simpl. right. apply (Hh0 (or_intror K) d c d1 c1 Ex).
+      * (* KOp *) simpl. right. apply (Hh0 (or_introl K) d c d1 c1 Ex).
+      * (* KProbe *) simpl. rewrite (exec_data_unchanged n0 d c d1 c1 (or_intror (or_introl K)) Ex).
+        apply gate_cases. eapply exec_gate_passed; eauto. unfold is_ctx. rewrite K. reflexivity.
+      * (* KSink *) simpl. rewrite (exec_data_unchanged n0 d c d1 c1 (or_intror (or_intror K)) Ex).
+        apply gate_cases. eapply exec_gate_passed; eauto. unfold is_ctx. rewrite K. reflexivity.
+      * (* KCtx *) rewrite (exec_data_unchanged n0 d c d1 c1 (or_introl K) Ex).
+        unfold TInv in *. destruct cur; auto. simpl in HT. unfold is_ctx in HT. rewrite K in HT. exact HT.
+Qed.
+End TypeSound.
